@@ -30,7 +30,7 @@ from . import c20
 
 PROPERTY = "C01"
 LEVEL = "exploration"
-RUNS = {"quick": 500, "thorough": 20000}
+RUNS = {"quick": 1200, "thorough": 30000}
 BATCH = 8
 RULE = ("seeded runs of 30-80 requests from a traversal grammar (protocol syntax x base object x climbing token "
         "placed before/inside/after x encoding layers x virtual-argument / ZIP-member / URL: / type-rewrite forms), "
